@@ -126,6 +126,7 @@ def cbmc_cmd(q, b, witness):
     if q.paths: cmd += ['--paths', 'lifo']
     elif q.solver == 'kissat': cmd += ['--external-sat-solver', 'kissat']
     elif q.solver == 'cadical': cmd += ['--sat-solver', 'cadical']
+    elif q.solver == 'cvc5int': cmd += ['--cvc5', '--slice-formula']      # engine/shim/cvc5 first on PATH: cvc5 --solve-bv-as-int=sum
     cmd += list(q.cbmc)
     return cmd
 
@@ -168,7 +169,8 @@ def trace_inputs(out, failed=()):
 
 def run_cbmc(q, b, witness, tmo):
     cmd = cbmc_cmd(q, b, witness)
-    rc, out, t = sh(cmd, timeout=tmo, mem_gb=q.mem_gb)
+    env = dict(os.environ, PATH=os.path.join(ENG, 'shim') + ':' + os.environ.get('PATH', '')) if q.solver == 'cvc5int' else None
+    rc, out, t = sh(cmd, timeout=tmo, mem_gb=q.mem_gb, env=env)
     d = parse_cbmc(out); d['wall_s'] = round(t, 2); d['rc'] = rc; d['out'] = out; d['cmd'] = ' '.join(cmd)
     if rc == -9: d['verdict'] = 'TIMEOUT'
     elif d['verdict'] is None: d['verdict'] = 'ERROR'
@@ -208,7 +210,7 @@ def run_query(q, pid, tier, seed, bdir_root, log):
     q.pid = pid
     bdir = os.path.join(bdir_root, q.name)
     res = {'query': q.name, 'harness': q.harness, 'entry': q.entry, 'defines': list(q.defines), 'bounds': q.bounds, 'what': q.what,
-           'unwind': q.unwind, 'mode': 'path-wise symbolic execution (--paths lifo)' if q.paths else 'merged BMC, SAT back end ' + q.solver,
+           'unwind': q.unwind, 'mode': 'path-wise symbolic execution (--paths lifo)' if q.paths else ('merged BMC, SMT back end cvc5 --solve-bv-as-int=sum (integer encoding of the mod-2^k arithmetic)' if q.solver == 'cvc5int' else 'merged BMC, SAT back end ' + q.solver),
            'memory_model': 'SC/latest-value' if q.vra == 'sc' else 'release/acquire views ' + json.dumps(q.vra)}
     tmo = q.timeout or (170 if tier == 'quick' else 1500)
     try:
